@@ -19,7 +19,10 @@ use std::{
 };
 
 use actix_service::{Service, ServiceFactory};
-use actix_tls::accept::{max_concurrent_tls_connect, openssl as aossl, rustls_0_23 as arustls, TlsError};
+use actix_tls::accept::{
+    max_concurrent_tls_connect, native_tls as anative, openssl as aossl, rustls_0_20 as ar20, rustls_0_21 as ar21, rustls_0_22 as ar22,
+    rustls_0_23 as arustls, TlsError,
+};
 use tokio::io::{AsyncRead, AsyncReadExt, AsyncWrite, AsyncWriteExt, ReadBuf};
 
 use crate::util::*;
@@ -73,18 +76,52 @@ fn spin<F: Future + Unpin>(mut f: F, max: usize) -> Option<F::Output> {
 // ------------------------------------------------------------------------------------------
 // the two back-ends behind one face
 // ------------------------------------------------------------------------------------------
-enum AnySvc {
-    R(arustls::AcceptorService),
-    O(aossl::AcceptorService),
+/// one face for every acceptor back-end of actix-tls: rustls 0.23 / 0.22 / 0.21 / 0.20, OpenSSL, native-tls
+macro_rules! backends {
+    ($($v:ident => $m:ident),*) => {
+        enum AnySvc { $($v($m::AcceptorService)),* }
+        enum AnyFut { $($v(Pin<Box<<$m::AcceptorService as Service<Mem>>::Future>>)),* }
+        enum AnyStream { $($v($m::TlsStream<Mem>)),* }
+        impl AnySvc {
+            fn poll_ready(&self, cx: &mut Context<'_>) -> Poll<bool> {
+                match self { $(AnySvc::$v(s) => <$m::AcceptorService as Service<Mem>>::poll_ready(s, cx).map(|r| r.is_ok())),* }
+            }
+            fn call(&self, io: Mem) -> AnyFut {
+                match self { $(AnySvc::$v(s) => AnyFut::$v(Box::pin(s.call(io)))),* }
+            }
+        }
+        impl AnyFut {
+            fn poll(&mut self, cx: &mut Context<'_>) -> Poll<(Outcome, Option<AnyStream>)> {
+                match self {
+                    $(AnyFut::$v(f) => f.as_mut().poll(cx).map(|r| match r {
+                        Ok(s) => (Outcome::Ok, Some(AnyStream::$v(s))),
+                        Err(TlsError::Timeout) => (Outcome::Timeout, None),
+                        Err(TlsError::Tls(_)) => (Outcome::Tls, None),
+                        Err(TlsError::Service(e)) => match e {},
+                    })),*
+                }
+            }
+        }
+        impl AsyncRead for AnyStream {
+            fn poll_read(self: Pin<&mut Self>, cx: &mut Context<'_>, buf: &mut ReadBuf<'_>) -> Poll<std::io::Result<()>> {
+                match self.get_mut() { $(AnyStream::$v(s) => Pin::new(s).poll_read(cx, buf)),* }
+            }
+        }
+        impl AsyncWrite for AnyStream {
+            fn poll_write(self: Pin<&mut Self>, cx: &mut Context<'_>, buf: &[u8]) -> Poll<std::io::Result<usize>> {
+                match self.get_mut() { $(AnyStream::$v(s) => Pin::new(s).poll_write(cx, buf)),* }
+            }
+            fn poll_flush(self: Pin<&mut Self>, cx: &mut Context<'_>) -> Poll<std::io::Result<()>> {
+                match self.get_mut() { $(AnyStream::$v(s) => Pin::new(s).poll_flush(cx)),* }
+            }
+            fn poll_shutdown(self: Pin<&mut Self>, cx: &mut Context<'_>) -> Poll<std::io::Result<()>> {
+                match self.get_mut() { $(AnyStream::$v(s) => Pin::new(s).poll_shutdown(cx)),* }
+            }
+        }
+    };
 }
-enum AnyFut {
-    R(Pin<Box<<arustls::AcceptorService as Service<Mem>>::Future>>),
-    O(Pin<Box<<aossl::AcceptorService as Service<Mem>>::Future>>),
-}
-enum AnyStream {
-    R(arustls::TlsStream<Mem>),
-    O(aossl::TlsStream<Mem>),
-}
+backends!(R => arustls, R22 => ar22, R21 => ar21, R20 => ar20, O => aossl, N => anative);
+
 #[derive(Clone, Copy, PartialEq, Debug)]
 enum Outcome {
     Ok,
@@ -100,82 +137,53 @@ impl Outcome {
         }
     }
 }
-
-impl AnySvc {
-    fn poll_ready(&self, cx: &mut Context<'_>) -> Poll<bool> {
-        match self {
-            AnySvc::R(s) => <arustls::AcceptorService as Service<Mem>>::poll_ready(s, cx).map(|r| r.is_ok()),
-            AnySvc::O(s) => <aossl::AcceptorService as Service<Mem>>::poll_ready(s, cx).map(|r| r.is_ok()),
-        }
-    }
-    fn call(&self, io: Mem) -> AnyFut {
-        match self {
-            AnySvc::R(s) => AnyFut::R(Box::pin(s.call(io))),
-            AnySvc::O(s) => AnyFut::O(Box::pin(s.call(io))),
-        }
-    }
-}
-impl AnyFut {
-    fn poll(&mut self, cx: &mut Context<'_>) -> Poll<(Outcome, Option<AnyStream>)> {
-        match self {
-            AnyFut::R(f) => f.as_mut().poll(cx).map(|r| match r {
-                Ok(s) => (Outcome::Ok, Some(AnyStream::R(s))),
-                Err(TlsError::Timeout) => (Outcome::Timeout, None),
-                Err(TlsError::Tls(_)) => (Outcome::Tls, None),
-                Err(TlsError::Service(e)) => match e {},
-            }),
-            AnyFut::O(f) => f.as_mut().poll(cx).map(|r| match r {
-                Ok(s) => (Outcome::Ok, Some(AnyStream::O(s))),
-                Err(TlsError::Timeout) => (Outcome::Timeout, None),
-                Err(TlsError::Tls(_)) => (Outcome::Tls, None),
-                Err(TlsError::Service(e)) => match e {},
-            }),
-        }
-    }
-}
 impl Future for AnyFut {
     type Output = (Outcome, Option<AnyStream>);
     fn poll(self: Pin<&mut Self>, cx: &mut Context<'_>) -> Poll<Self::Output> {
         AnyFut::poll(self.get_mut(), cx)
     }
 }
-impl AsyncRead for AnyStream {
-    fn poll_read(self: Pin<&mut Self>, cx: &mut Context<'_>, buf: &mut ReadBuf<'_>) -> Poll<std::io::Result<()>> {
-        match self.get_mut() {
-            AnyStream::R(s) => Pin::new(s).poll_read(cx, buf),
-            AnyStream::O(s) => Pin::new(s).poll_read(cx, buf),
-        }
-    }
-}
-impl AsyncWrite for AnyStream {
-    fn poll_write(self: Pin<&mut Self>, cx: &mut Context<'_>, buf: &[u8]) -> Poll<std::io::Result<usize>> {
-        match self.get_mut() {
-            AnyStream::R(s) => Pin::new(s).poll_write(cx, buf),
-            AnyStream::O(s) => Pin::new(s).poll_write(cx, buf),
-        }
-    }
-    fn poll_flush(self: Pin<&mut Self>, cx: &mut Context<'_>) -> Poll<std::io::Result<()>> {
-        match self.get_mut() {
-            AnyStream::R(s) => Pin::new(s).poll_flush(cx),
-            AnyStream::O(s) => Pin::new(s).poll_flush(cx),
-        }
-    }
-    fn poll_shutdown(self: Pin<&mut Self>, cx: &mut Context<'_>) -> Poll<std::io::Result<()>> {
-        match self.get_mut() {
-            AnyStream::R(s) => Pin::new(s).poll_shutdown(cx),
-            AnyStream::O(s) => Pin::new(s).poll_shutdown(cx),
-        }
-    }
-}
 
-async fn make_services(pki: &Pki, tr: u64, to: u64) -> (AnySvc, AnySvc) {
-    let mut ra = arustls::Acceptor::new(rustls_server_config(&pki.idents[0]));
-    ra.set_handshake_timeout(Duration::from_millis(tr));
-    let rs = <arustls::Acceptor as ServiceFactory<Mem>>::new_service(&ra, ()).await.unwrap();
-    let mut oa = aossl::Acceptor::new(openssl_acceptor(&pki.idents[0]));
-    oa.set_handshake_timeout(Duration::from_millis(to));
-    let os = <aossl::Acceptor as ServiceFactory<Mem>>::new_service(&oa, ()).await.unwrap();
-    (AnySvc::R(rs), AnySvc::O(os))
+/// `rv` = which rustls acceptor plays the "r" service (23 default, 22, 21, 20); `ov` = o (OpenSSL, default) or n (native-tls)
+/// for the "o" service.  All of them share the per-thread handshake counter.
+async fn make_services(pki: &Pki, tr: u64, to: u64, rv: &str, ov: &str) -> (AnySvc, AnySvc) {
+    let id = &pki.idents[0];
+    let (dr, dto) = (Duration::from_millis(tr), Duration::from_millis(to));
+    let rs = match rv {
+        "22" => {
+            let mut a = ar22::Acceptor::new(rustls22_server_config(id));
+            a.set_handshake_timeout(dr);
+            AnySvc::R22(<ar22::Acceptor as ServiceFactory<Mem>>::new_service(&a, ()).await.unwrap())
+        }
+        "21" => {
+            let mut a = ar21::Acceptor::new(rustls21_server_config(id));
+            a.set_handshake_timeout(dr);
+            AnySvc::R21(<ar21::Acceptor as ServiceFactory<Mem>>::new_service(&a, ()).await.unwrap())
+        }
+        "20" => {
+            let mut a = ar20::Acceptor::new(rustls20_server_config(id));
+            a.set_handshake_timeout(dr);
+            AnySvc::R20(<ar20::Acceptor as ServiceFactory<Mem>>::new_service(&a, ()).await.unwrap())
+        }
+        _ => {
+            let mut a = arustls::Acceptor::new(rustls_server_config(id));
+            a.set_handshake_timeout(dr);
+            AnySvc::R(<arustls::Acceptor as ServiceFactory<Mem>>::new_service(&a, ()).await.unwrap())
+        }
+    };
+    let os = match ov {
+        "n" => {
+            let mut a = anative::Acceptor::new(native_acceptor(id));
+            a.set_handshake_timeout(dto);
+            AnySvc::N(<anative::Acceptor as ServiceFactory<Mem>>::new_service(&a, ()).await.unwrap())
+        }
+        _ => {
+            let mut a = aossl::Acceptor::new(openssl_acceptor(id));
+            a.set_handshake_timeout(dto);
+            AnySvc::O(<aossl::Acceptor as ServiceFactory<Mem>>::new_service(&a, ()).await.unwrap())
+        }
+    };
+    (rs, os)
 }
 
 // ------------------------------------------------------------------------------------------
@@ -335,7 +343,7 @@ async fn c18_script(line: &str, pki: &Pki) -> String {
     let to: u64 = field(line, "to").unwrap_or("3000").parse().unwrap();
     let seed: u64 = field(line, "seed").unwrap_or("1").parse().unwrap();
     let mut rng = Rng(seed);
-    let (rsvc, osvc) = make_services(pki, tr, to).await;
+    let (rsvc, osvc) = make_services(pki, tr, to, field(line, "rv").unwrap_or("23"), field(line, "ov").unwrap_or("o")).await;
     let mut conns: Vec<Conn> = Vec::new();
     for spec in field(line, "conns").unwrap_or("").split(',').filter(|s| !s.is_empty()) {
         let mut ch = spec.chars();
@@ -525,7 +533,7 @@ async fn c18e2e_run(line: &str, pki: &'static Pki) -> String {
     let tr: u64 = field(line, "tr").unwrap_or("3000").parse().unwrap();
     let to: u64 = field(line, "to").unwrap_or("3000").parse().unwrap();
     let seed: u64 = field(line, "seed").unwrap_or("1").parse().unwrap();
-    let (rsvc, osvc) = make_services(pki, tr, to).await;
+    let (rsvc, osvc) = make_services(pki, tr, to, field(line, "rv").unwrap_or("23"), field(line, "ov").unwrap_or("o")).await;
     let t0 = tokio::time::Instant::now();
     let log: Rc<RefCell<Vec<String>>> = Rc::new(RefCell::new(Vec::new()));
     let (tx, mut rx) = tokio::sync::mpsc::unbounded_channel::<(usize, char, Mem)>();
